@@ -195,6 +195,13 @@ def run(rep):
                         kills.add(b)
                 if t['k'] == 'drop' and t['place']['l'] == L:
                     kills.add(b)
+                # `match opt { None => .. }`: on the None edge of a switch on the holder's own discriminant nothing is held
+                if t['k'] == 'switch' and 'Option<' in body.locals[L] and op_local(t['discr']) is not None:
+                    dl = op_local(t['discr'])
+                    if any(st['lhs']['l'] == dl and st['rv']['rk'] == 'discriminant' and st['rv']['place']['l'] == L and not st['rv']['place']['p'] for st in blk['stmts']):
+                        for v, tgt in t['targets']:
+                            if v == 0:
+                                kills.add(tgt)
             for g in sorted(gens):
                 n_d += 1
                 if g in kills:
